@@ -743,33 +743,88 @@ def gen_supports(outdir):
         rows.append("(%s, %s)" % (coq_str(a), FAM[k]))
     add("enc_alg_family", "list (pystr * keyfam)", "[" + "; ".join(rows) + "]")
 
-    # ---- probe 1: artefacts the provider puts into the authorization response, per response type
+    # ---- the response types the relying-party half can be configured with: everything its response-mode table,
+    #      callback construction and get_access_and_id_token know (the `_supports` default is a subset)
+    rp_cfg_rts = strs(list(drm.keys()), "client DEFAULT_RESPONSE_MODE keys")
+    for t in sup(c_az.Authorization, "response_types_supported"):
+        if t not in rp_cfg_rts:
+            rp_cfg_rts.append(t)
+    add("rp_configurable_response_types", "list pystr", lst(rp_cfg_rts))
+
+    # ---- probe 1 (real provider): for every such response type, does create_authn_response handle it, which
+    #      artefacts does the authorization response carry, fragment_enc, and which of c_hash / at_hash the
+    #      ID Token issued there carries
+    import base64 as _b64
+    import json as _json
     import srv
     server = srv.make_server()
     az = server.get_endpoint("authorization")
-    rows, frows = [], []
-    for rt in sup(s_az.Authorization, "response_types_supported"):
+    handled, rows, frows, hrows = [], [], [], []
+    for rt in rp_cfg_rts:
         req = {"client_id": "client_1", "redirect_uri": "https://client_1.example.com/cb", "scope": "openid",
                "state": "st", "nonce": "n-0123456789", "response_type": rt}
         try:
             pr = az.parse_request(dict(req))
             if "error" in pr:
-                raise Untranslatable("authorization probe for %r refused: %r" % (rt, pr.to_dict()))
+                continue
             r = az.process_request(pr)
             ra = r["response_args"]
             if "error" in ra:
-                raise Untranslatable("authorization probe for %r answered %r" % (rt, ra.to_dict()))
-        except Untranslatable:
-            raise
-        except Exception as e:
-            raise Untranslatable("authorization probe for %r raised %r" % (rt, e))
+                continue
+        except Exception:
+            continue       # not handled: the type is simply absent from op_configurable_response_types
+        handled.append(rt)
         got = [k for k in ("code", "access_token", "id_token") if k in ra]
         rows.append("(%s, %s)" % (coq_str(rt), lst(got)))
         if not isinstance(r.get("fragment_enc"), bool):
             raise Untranslatable("authorization probe for %r: fragment_enc = %r" % (rt, r.get("fragment_enc")))
         frows.append("(%s, %s)" % (coq_str(rt), "true" if r["fragment_enc"] else "false"))
+        if "id_token" in ra:
+            try:
+                part = ra["id_token"].split(".")[1]
+                payload = _json.loads(_b64.urlsafe_b64decode(part + "=" * (-len(part) % 4)))
+            except Exception as e:
+                raise Untranslatable("authorization probe for %r: ID Token is not a JWS (%r)" % (rt, e))
+            hrows.append("(%s, %s)" % (coq_str(rt), lst([h for h in ("c_hash", "at_hash") if h in payload])))
+    add("op_configurable_response_types", "list pystr", lst(handled))
     add("op_artefacts", "list (pystr * list pystr)", "[" + "; ".join(rows) + "]")
     add("op_fragment_enc", "list (pystr * bool)", "[" + "; ".join(frows) + "]")
+    add("op_idt_hashes", "list (pystr * list pystr)", "[" + "; ".join(hrows) + "]")
+
+    # ---- probe 1b (real message class): which hash the relying party REQUIRES in an ID Token that arrives
+    #      together with a code / an access token (oidc.AuthorizationResponse.verify)
+    from cryptojwt.jwt import JWT as _JWT
+    from cryptojwt.jws.utils import left_hash as _left_hash
+    from idpyoidc.message.oidc import AuthorizationResponse as _AR
+    _kj = server.keyjar
+    _iss = server.context.issuer
+
+    def _idt(extra):
+        pl = {"sub": "s", "nonce": "n", "aud": ["client_1"]}
+        pl.update(extra)
+        return _JWT(_kj, iss=_iss, sign_alg="RS256", lifetime=300).pack(pl, recv="client_1")
+
+    def _accepts(msg):
+        try:
+            return bool(_AR(**msg).verify(keyjar=_kj, iss=_iss, client_id="client_1")), None
+        except Exception as e:
+            return False, e
+    ok, err = _accepts({"state": "st", "id_token": _idt({})})
+    if not ok:
+        raise Untranslatable("AuthorizationResponse.verify refuses a plain ID Token in the probe: %r" % (err,))
+    rrows = []
+    for art, val in (("code", "the-code"), ("access_token", "the-access-token")):
+        ok, err = _accepts({"state": "st", "id_token": _idt({}), art: val})
+        if ok:
+            continue            # nothing required for this artefact
+        need = [h for h in ("c_hash", "at_hash") if h in str(err)]
+        if len(need) != 1:
+            raise Untranslatable("cannot tell which hash is required next to %r: %r" % (art, err))
+        ok2, err2 = _accepts({"state": "st", "id_token": _idt({need[0]: _left_hash(val, "HS256")}), art: val})
+        if not ok2:
+            raise Untranslatable("ID Token with %s still refused next to %r: %r" % (need[0], art, err2))
+        rrows.append("(%s, %s)" % (coq_str(art), coq_str(need[0])))
+    add("rp_idt_required_hash", "list (pystr * pystr)", "[" + "; ".join(rrows) + "]")
 
     # ---- probe 2: where the relying party takes access token / ID Token from, per response type
     from idpyoidc.client.oauth2.stand_alone_client import StandAloneClient
@@ -799,7 +854,7 @@ def gen_supports(outdir):
     SRC = {None: "SrcNone", "AT-authz": "SrcAuthz", "IDT-authz": "SrcAuthz",
            "AT-token-endpoint": "SrcToken", "IDT-token-endpoint": "SrcToken"}
     rows = []
-    for rt in sup(c_az.Authorization, "response_types_supported"):
+    for rt in rp_cfg_rts:
         ar = {"state": "st", "access_token": "AT-authz", "__verified_id_token": "IDT-authz", "code": "c"}
         try:
             res = _Probe(rt).get_access_and_id_token(authorization_response=ar, state="st")
